@@ -283,6 +283,52 @@ Proof.
   rewrite Hs. apply ripe_all_gone. exact HR.
 Qed.
 
+(* ---- 2b. the pending table under transport faults: the outcome of session.WriteMessage for a
+   retransmitted copy has no influence on the table ---- *)
+
+Lemma tick_all_w_tbl c w : forall l, tick_w_tbl c w l = fst (R.tick_all c l).
+Proof.
+  unfold tick_w_tbl. induction l as [|p r IH]; [reflexivity|]. cbn [tick_all_w R.tick_all].
+  destruct (tick_all_w c w r) as [[r' e'] n']. destruct (R.tick_all c r) as [r2 e2]. cbn [fst] in IH. subst r2.
+  destruct (R.tick_entry c p) as [[p'|] [|]]; cbn [fst]; try reflexivity. destruct (w (R.p_id p')); reflexivity.
+Qed.
+
+(* the copies that reach the wire are the model's retransmissions whose write did not fail, and one
+   error is reported per failed write *)
+Definition wire_ok (w : Z -> bool) (e : R.emit) : bool := match e with R.Copy id => negb (w id) | R.BareAck _ => true end.
+
+Lemma tick_all_w_wire c w : forall l,
+  snd (fst (tick_all_w c w l)) = filter (wire_ok w) (snd (R.tick_all c l)) /\
+  snd (tick_all_w c w l) = blen (filter (fun e => negb (wire_ok w e)) (snd (R.tick_all c l))).
+Proof.
+  induction l as [|p r [IH1 IH2]]; [split; reflexivity|]. cbn [tick_all_w R.tick_all].
+  destruct (tick_all_w c w r) as [[r' e'] n']. destruct (R.tick_all c r) as [r2 e2]. cbn [fst snd] in IH1, IH2. subst e' n'.
+  destruct (R.tick_entry c p) as [[p'|] [|]]; cbn [fst snd]; try (split; reflexivity).
+  cbn [filter wire_ok]. destruct (w (R.p_id p')); cbn [fst snd negb]; split; try reflexivity.
+  unfold blen. cbn [length]. lia.
+Qed.
+
+Corollary tick_all_w_no_fault c l : fst (tick_all_w c (fun _ => false) l) = R.tick_all c l.
+Proof.
+  pose proof (tick_all_w_tbl c (fun _ => false) l) as H1. destruct (tick_all_w_wire c (fun _ => false) l) as [H2 _].
+  unfold tick_w_tbl in H1. destruct (tick_all_w c (fun _ => false) l) as [[a b] n]. destruct (R.tick_all c l) as [a2 b2]. cbn [fst snd] in *. subst.
+  f_equal. induction b2 as [|e r IH]; [reflexivity|]. cbn [filter]. destruct e; cbn [wire_ok negb]; f_equal; exact IH.
+Qed.
+
+Fixpoint ticks_w (c : R.cfg) (ws : list (Z -> bool)) (l : list R.pend) : list R.pend :=
+  match ws with [] => l | w :: r => ticks_w c r (tick_w_tbl c w l) end.
+
+Lemma ticks_w_ticks c : forall ws l, ticks_w c ws l = ticks c (length ws) l.
+Proof. induction ws as [|w r IH]; intros l; [reflexivity|]. cbn [ticks_w ticks length]. rewrite tick_all_w_tbl. apply IH. Qed.
+
+(* ... so entries without caller and deadline are exhausted by MAX_RETRANSMIT+1 ticks whatever the
+   transport does to the retransmitted copies *)
+Theorem pending_exhausts_faults : forall c ws l, 0 <= R.ack_ms c -> 0 <= R.max_rt c ->
+  length ws = S (Z.to_nat (R.max_rt c)) ->
+  Forall (fun p => 0 <= R.p_count p /\ R.ack_ms c * (R.max_rt c + 1) < R.p_elapsed p) l ->
+  ticks_w c ws l = [].
+Proof. intros c ws l Hack Hm Hl H. rewrite ticks_w_ticks, Hl. apply pending_exhausts; assumption. Qed.
+
 (* ================================================================== *)
 (* 3. token continuations: every exit path of doInternal removes its entry *)
 
@@ -735,9 +781,16 @@ Proof. intros [tr ->]. exists (tr ++ [a]). rewrite <- run_app. reflexivity. Qed.
 
 Ltac simp := cbn [dd rx tk pg bs br lm ob mx live with_dd with_rx with_tk with_pg with_bs with_br with_lm with_ob with_mx rstep ostep].
 
+(* a tick with a failing transport changes the connection exactly as a tick with a working one *)
+Lemma step_tickw s b : Model.step c s (TickAllW b) = Model.step c s TickAll.
+Proof.
+  cbn [Model.step]. unfold pstep, rstep. simp. cbn [R.step R.pending R.reqs]. rewrite !tick_all_w_tbl.
+  destruct (R.tick_all c (pg s)); destruct (R.tick_all c (R.pending (rx s))). reflexivity.
+Qed.
+
 Lemma cinv_step s e : CInv s -> ev_ok e -> CInv (Model.step c s e).
 Proof.
-  intros I He. destruct e; cbn [Model.step ev_ok] in *.
+  intros I He. destruct e; try rewrite step_tickw; cbn [Model.step ev_ok] in *.
   - (* EIn *)
     destruct (ci_mx s I) as [Hidle _]. destruct (mx_cycle (mx s) mid Hidle) as [H1 H2].
     constructor; simp; try apply I; [|split; assumption].
@@ -768,6 +821,16 @@ Proof.
     + apply (pend_owned_step c (rx s) (R.Age ms)). apply I.
     + pose proof (ci_pg s I) as HP. induction HP as [|p r [H1 H2] _ IH]; cbn [map]; constructor; [cbn; lia|exact IH].
   - (* TickAll *)
+    constructor; simp; try apply I.
+    + apply (DP.step_all_bounded (dd s) D.Tick); [apply I|unfold DP.age_ok; cbn [DP.age_of]; lia].
+    + apply (pend_owned_step c (rx s) R.Tick). apply I.
+    + unfold pstep. cbn [R.step R.pending R.reqs]. destruct (R.tick_all c (pg s)) as [l em] eqn:Et. cbn [fst R.pending].
+      apply Forall_forall. intros p' Hp'. pose proof (tick_all_in c (pg s) p') as HT. rewrite Et in HT.
+      destruct (HT Hp') as (p & b & Hin & Hte). pose proof (ci_pg s I) as HP. rewrite Forall_forall in HP. destruct (HP p Hin) as [H1 H2].
+      destruct (RP.tick_entry_keep c p p' b Hte) as [_ Hc].
+      unfold R.tick_entry in Hte. destruct ((match R.p_dl p with Some d => d <? 0 | None => false end) || (R.p_count p >=? R.max_rt c)); [discriminate|].
+      destruct (R.ack_ms c * (R.p_count p + 1) <? R.p_elapsed p); inversion Hte; subst; cbn; lia.
+  - (* TickAllW: same state as TickAll (step_tickw) *)
     constructor; simp; try apply I.
     + apply (DP.step_all_bounded (dd s) D.Tick); [apply I|unfold DP.age_ok; cbn [DP.age_of]; lia].
     + apply (pend_owned_step c (rx s) R.Tick). apply I.
@@ -825,6 +888,19 @@ Proof.
       * change (nticks 0 s') with s'. rewrite F8. apply tick_clears. exact Hl.
       * apply H8; [lia|]. rewrite F8. rewrite (tick_clears _ Hl). constructor.
 Qed.
+
+(* the closing sequence with an arbitrary transport fault per tick *)
+Definition closing_w (d : Z) (ws : list bool) (s : conn) : conn :=
+  Model.step c (Model.run c (Model.step c s (AgeAll d)) (map TickAllW ws)) BwExpire.
+
+Lemma run_tickw : forall ws s, Model.run c s (map TickAllW ws) = nticks (length ws) s.
+Proof.
+  induction ws as [|w r IH]; intros s; [reflexivity|]. cbn [map length]. rewrite nticks_S. rewrite <- step_tickw with (b := w).
+  unfold Model.run. cbn [fold_left]. apply IH.
+Qed.
+
+Lemma closing_w_closing d ws s : length ws = S (Z.to_nat (R.max_rt c)) -> closing_w d ws s = closing d s.
+Proof. intros H. unfold closing_w, closing. rewrite run_tickw, H. reflexivity. Qed.
 
 Lemma filter_none {A} (f : A -> bool) l : (forall x, f x = false) -> filter f l = [].
 Proof. intros H. induction l as [|a r IH]; cbn; [reflexivity|]. rewrite H. exact IH. Qed.
